@@ -3,8 +3,10 @@ pub mod big;
 pub mod exec;
 pub mod fgen;
 pub mod fmts;
+pub mod fmttab;
 pub mod guard;
 pub mod oracle;
+pub mod refgram;
 pub mod report;
 pub mod rng;
 
